@@ -533,6 +533,11 @@ func (x *Exec) resolveModifies(st *State, spec *FuncSpec, env *Env) modLocs {
 		default:
 			p := oenv.evalLoc(mi.X)
 			elem := ptrElem(p.Typ)
+			if isNamed(elem, "sync", "Once") {
+				n := "once:" + p.prefix()
+				ml.precise[n] = append(ml.precise[n], p.T())
+				continue
+			}
 			if isSyncType(elem) {
 				continue
 			}
